@@ -10,6 +10,7 @@ import glob, hashlib, json, os, random, re, shutil, subprocess, sys, time
 from concurrent.futures import ThreadPoolExecutor
 
 ROOT = os.path.dirname(os.path.dirname(os.path.abspath(__file__)))
+EVDIR = os.environ.get("VERIF_EVIDENCE_DIR") or os.path.join(ROOT, "evidence")  # scratch runs (bin/tryseed) must not clobber the evidence
 FM = os.path.join(os.environ.get("VERIF_REPO") or "/repo", "formal-models")
 MODELS = [
     # key, relative path, invariants, constraint, extra constants
@@ -232,8 +233,8 @@ def main(prop, spec, argv, seed, chk):
             },
             "assumptions": spec["assumptions"], "wall_s": round(time.time() - t0, 1), "violations": len(viols),
         }
-        os.makedirs(os.path.join(ROOT, "evidence"), exist_ok=True)
-        json.dump(ev, open(os.path.join(ROOT, "evidence", prop + ".json"), "w"), indent=1, sort_keys=True)
+        os.makedirs(EVDIR, exist_ok=True)
+        json.dump(ev, open(os.path.join(EVDIR, prop + ".json"), "w"), indent=1, sort_keys=True)
         print("%s %s: %d configurations, %d behaviours, %d states, %d distinct non-trivial dumped behaviours, wall %.1fs" % (
             prop, tier, ev["coverage"]["configurations"], traces, states, nt, time.time() - t0))
         for p in viols:
